@@ -9,6 +9,11 @@ C17 driver.
   merge <ids> <base> <this> <other>
       -> `<merged tree, ids ascending; content of a text-merged file printed as ?> <conflicts id:kind,… | -> <wf T|F>`
   wf <ids> <tree>  -> T|F
+  change <changed T|F> <copied T|F> <pairs3> <parents3> <names3> <exec3>
+      one element of `_entries3`, every triple as `base/other/this`:
+      pair = `~` | <kind f|d|l>.<content>; parent = `~` (no such entry) | `^` (entry without parent) | n;
+      name = `~` | n; exec = `~` | T | F
+      -> `<merged entry parent:name:kind:content:exec (parent `^` = none, content `?` after a text merge) | -> <conflicts kind,… | ->`
 -/
 namespace BreezyVerif.C17
 
@@ -42,7 +47,43 @@ def showCK : ConflictKind → String
 
 def sortNat (l : List Nat) : List Nat := l.mergeSort (fun a b => decide (a ≤ b))
 
+def triple (s : String) : Option (String × String × String) :=
+  match s.splitOn "/" with
+  | [a, b, c] => some (a, b, c)
+  | _ => none
+
+def parseT3 {α : Type} (f : String → Option α) (s : String) : Option (T3 α) := do
+  let (a, b, c) ← triple s
+  pure ⟨← f a, ← f b, ← f c⟩
+
+def parsePair (s : String) : Option (Option (Kind × Nat)) :=
+  if s == "~" then some none else
+  match s.splitOn "." with
+  | [k, c] => do pure (some (← parseKind k, ← c.toNat?))
+  | _ => none
+
+def parseParent (s : String) : Option (Option (Option Id)) :=
+  if s == "~" then some none else if s == "^" then some (some none) else s.toNat?.map fun n => some (some n)
+
+def parseOptBool (s : String) : Option (Option Bool) :=
+  if s == "~" then some none else (parseBool s).map some
+
+def showResult (r : Result) : String :=
+  let e := match r.entry with
+    | none => "-"
+    | some e =>
+      let p := match e.parent with | none => "^" | some n => toString n
+      let c := if r.conflicts.contains .textMerge then "?" else toString e.content
+      s!"{p}:{e.name}:{showKind e.kind}:{c}:{showBool e.exec}"
+  s!"{e} {joinList (r.conflicts.map showCK)}"
+
 def handle : List String → String
+  | ["change", ch, cp, pairs, parents, names, execs] =>
+    match parseBool ch, parseBool cp, parseT3 parsePair pairs, parseT3 parseParent parents,
+          parseT3 optNat names, parseT3 parseOptBool execs with
+    | some ch, some cp, some pairs, some parents, some names, some execs =>
+      showResult (mergeChange ⟨ch, pairs, parents, names, execs, cp⟩)
+    | _, _, _, _, _, _ => "bad-op"
   | ["merge", ids, b, t, o] =>
     match parseNatList ids, parseTree b, parseTree t, parseTree o with
     | some ids, some b, some t, some o =>
